@@ -583,6 +583,11 @@ func (ex *Exec) evalModTarget(ctx *SpecCtx, c *Clause) []*modTarget {
 			ln := ctx.term(ctx.eval(x.Args[2]), ex.env.IntS())
 			return []*modTarget{{kind: "elems", typ: types.Typ[types.Uint8], sl: &SliceV{Arr: ex.valTerm(a.V), Off: off, Len: ln, Cap: ln}, src: c.Src}}
 		}
+		if id, ok := x.Fun.(*ast.Ident); ok && id.Name == "ops" && len(x.Args) == 1 {
+			// ops(ch): the ghost send / receive counters of channel ch (this invocation's operations on it)
+			a := ctx.eval(x.Args[0])
+			return []*modTarget{{kind: "chanops", ref: ex.valTerm(a.V), src: c.Src}}
+		}
 		if id, ok := x.Fun.(*ast.Ident); ok && id.Name == "spare" && len(x.Args) == 1 {
 			// spare(s): the spare capacity s[len(s):cap(s)] of a slice (written by an in-place append)
 			base := ctx.eval(x.Args[0])
@@ -632,10 +637,19 @@ func (ex *Exec) havocTargets(st *State, targets []*modTarget) {
 			for _, l := range ex.env.leaves(t.typ) {
 				st.heap[t.key+" "+l.Path] = ex.fresh("hv_gg", l.Sort)
 			}
+		case "chanops":
+			for _, key := range []string{"chan sent", "chan recvd"} {
+				arr := ex.heapGet(st, key, ArraySort(SRef, SInt))
+				st.heap[key] = Store(arr, t.ref, ex.fresh("hv_ops", SInt))
+			}
 		case "map":
 			mt := ex.env.resolve(t.typ).Underlying().(*types.Map)
 			ex.havocMap(st, mt, t.ref)
 		case "all":
+			for _, key := range []string{"chan sent", "chan recvd"} {
+				arr := ex.heapGet(st, key, ArraySort(SRef, SInt))
+				st.heap[key] = ex.fresh("hv_all", arr.Sort)
+			}
 			for key := range st.heap {
 				if strings.HasPrefix(key, "F ") || strings.HasPrefix(key, "E ") || strings.HasPrefix(key, "M") {
 					cur := st.heap[key]
@@ -740,6 +754,16 @@ func (ex *Exec) checkFrame(st *State, site string) {
 			}
 			goal := Forall([]*Term{x}, Implies(And(append([]*Term{isOld}, excl...)...), Eq(Select(cur, x), Select(init, x))))
 			ex.check(st, "frame", site+":"+key, goal, "frame: map "+key+" changed outside the modifies clause", "")
+		case key == "chan sent" || key == "chan recvd":
+			var excl []*Term
+			for _, t := range ex.modTargets {
+				if t.kind == "chanops" {
+					excl = append(excl, Neq(x, t.ref))
+				}
+			}
+			excl = append(excl, isOld)
+			goal := Forall([]*Term{x}, Implies(And(excl...), Eq(Select(cur, x), Select(init, x))))
+			ex.check(st, "frame", site+":"+key, goal, "frame: channel operations ("+key+") outside the modifies clause", "")
 		case strings.HasPrefix(key, "GG "):
 			allowed := false
 			for _, t := range ex.modTargets {
@@ -1717,6 +1741,9 @@ func (ex *Exec) execSelect(st *State, fr *Frame, x *ssa.Select, k func(*State)) 
 			ch := ex.valTerm(ex.val(s2, x.States[idx].Chan))
 			if x.States[idx].Dir == types.RecvOnly {
 				s2.assume(App(rr.Name, SBool, ch))
+				ex.chanCount(s2, "chan recvd", ch)
+			} else {
+				ex.chanCount(s2, "chan sent", ch)
 			}
 		}
 		s2.regs[x] = &Val{Fs: vals}
@@ -1734,7 +1761,14 @@ func (ex *Exec) execSelect(st *State, fr *Frame, x *ssa.Select, k func(*State)) 
 	}
 }
 
+// chanCount increments the ghost counter (sends / completed receives performed by this invocation) of a channel.
+func (ex *Exec) chanCount(st *State, key string, ch *Term) {
+	arr := ex.heapGet(st, key, ArraySort(SRef, SInt))
+	st.heap[key] = Store(arr, ch, Add(Select(arr, ch), IntLit(1)))
+}
+
 func (ex *Exec) execRecv(st *State, fr *Frame, x *ssa.UnOp, ch *Val) func(k func(*State)) {
+	ex.chanCount(st, "chan recvd", ex.valTerm(ch))
 	// a receive blocks until a value arrives or the channel is closed; the received value is arbitrary
 	elemT := x.Type()
 	if x.CommaOk {
@@ -1812,6 +1846,39 @@ func (ex *Exec) intrinsic(st *State, fr *Frame, key string, callee *ssa.Function
 		elemT := callee.Signature.Params().At(0).Type().(*types.Pointer).Elem()
 		loc := ex.ptrLoc(args[0], elemT)
 		k(st, ex.loadLoc(st, loc))
+		return true
+	case "sync/atomic.CompareAndSwapInt32", "sync/atomic.CompareAndSwapInt64":
+		ex.trusted["sync/atomic operations are atomic read-modify-writes"] = true
+		elemT := callee.Signature.Params().At(0).Type().(*types.Pointer).Elem()
+		loc := ex.ptrLoc(args[0], elemT)
+		cur := ex.loadLoc(st, loc)
+		ok := Eq(cur.T, args[1].T)
+		ex.storeLoc(st, loc, scalar(Ite(ok, args[2].T, cur.T)))
+		k(st, scalar(ok))
+		return true
+	case "sync/atomic.(*Value).Store", "sync/atomic.(*Value).Load", "sync/atomic.(*Value).CompareAndSwap":
+		// atomic.Value is an opaque scalar; av_get projects the interface value it holds
+		ex.trusted["sync/atomic.Value holds the last stored interface value (av_get); operations are atomic"] = true
+		elemT := types.Unalias(callee.Signature.Recv().Type()).(*types.Pointer).Elem()
+		loc := ex.ptrLoc(args[0], elemT)
+		cur := ex.loadLoc(st, loc)
+		get := ex.env.d.Func("av_get", SRef, cur.T.Sort)
+		held := ex.env.d.Apply(get.Name, cur.T)
+		switch {
+		case strings.HasSuffix(key, "Load"):
+			k(st, scalar(held))
+		case strings.HasSuffix(key, "Store"):
+			nv := ex.fresh("av", cur.T.Sort)
+			st.assume(Eq(ex.env.d.Apply(get.Name, nv), args[1].T))
+			ex.storeLoc(st, loc, scalar(nv))
+			k(st, nil)
+		default:
+			ok := Eq(held, args[1].T)
+			nv := ex.fresh("av", cur.T.Sort)
+			st.assume(Eq(ex.env.d.Apply(get.Name, nv), Ite(ok, args[2].T, held)))
+			ex.storeLoc(st, loc, scalar(nv))
+			k(st, scalar(ok))
+		}
 		return true
 	case "sync/atomic.StoreInt32", "sync/atomic.StoreInt64":
 		elemT := callee.Signature.Params().At(0).Type().(*types.Pointer).Elem()
